@@ -97,6 +97,8 @@ def main():
         sh(["git", "-C", "/repo", "worktree", "remove", "--force", wt], "/")
         shutil.rmtree(scratch, ignore_errors=True)
         sh(["git", "-C", "/repo", "worktree", "prune"], "/")
+    if os.path.exists(meta_path):
+        meta = json.load(open(meta_path))     # re-read: the file may have been edited while the checks ran
     meta.setdefault("evaluation", {}).update(ev)
     with open(meta_path, "w") as f:
         json.dump(meta, f, indent=1)
